@@ -31,6 +31,7 @@ deterministic because no two workers ever run at the same time.  REPLY_TIMEOUT o
 worker that never answers is killed and reported as a harness error).  Horizons: MAX_POINTS steps per worker and
 schedule, MAX_SCHEDULES schedule runs per exploration (hitting one marks the evidence as capped).
 
+Scratch: everything lives under the pool's root directory (VERIF_SCHED_ROOT in the zygote and its workers).
 Clean-up: workers exit on socket EOF, on 'quit', when their parent (the zygote) disappears; the zygote exits on stdin
 EOF; the controller kills by PID what is left (also from atexit).
 """
@@ -496,7 +497,7 @@ class Pool:
             self.zygote = subprocess.Popen(
                 [sys.executable, os.path.abspath(__file__), "--zygote", repo, verif, task_name, self.sockpath],
                 stdin=subprocess.PIPE, stdout=subprocess.PIPE, stderr=subprocess.DEVNULL,
-                env=dict(os.environ, PYTHONHASHSEED="0"), close_fds=True)
+                env=dict(os.environ, PYTHONHASHSEED="0", VERIF_SCHED_ROOT=self.root), close_fds=True)
             _track(self.zygote.pid)
             self.zrd = _Line(self.zygote.stdout.fileno(), lambda k: os.read(self.zygote.stdout.fileno(), k), "zygote")
             ev = self.zrd.get()
